@@ -95,6 +95,7 @@ type World struct {
 	IoSrv    *server.IoServer
 	Dns      *DnsWorld
 	CertDir  string // directory of the certificate files (Options.CertFiles)
+	Sock     *server.SocketServer // the real socket server whose accept loop serves the stream carrier
 
 	mu         sync.Mutex
 	Apps       []*Endpoint
@@ -209,10 +210,16 @@ func New(o Options) (*World, error) {
 			}
 			l = tls.NewListener(l, tc)
 		}
+		if o.RealLoop == "" {
+			// the real accept loop of the socket server is the default; "harness" selects the plain
+			// accept loop of the harness (serveStream), which records handshake errors
+			o.RealLoop = "socket"
+		}
 		switch o.RealLoop {
 		case "socket":
 			ss := server.NewSocketServer()
 			ss.ServerConfig = w.SrvCfg
+			w.Sock = ss
 			go ss.VerifServe(l, filtered, o.TLS)
 		case "packet":
 			ps := server.NewPacketServer()
@@ -335,6 +342,19 @@ func (w *World) certsToFiles(o Options) error {
 		}
 	}
 	return nil
+}
+
+// StopServer makes the server of a stream world go away for good: through the socket server's own
+// Shutdown when its real accept loop is running (a listener closed behind its back would make
+// that loop spin), else by closing the listener.
+func (w *World) StopServer() {
+	if w.Sock != nil {
+		w.Sock.Shutdown()
+		return
+	}
+	if w.Listener != nil {
+		w.Listener.Close()
+	}
 }
 
 // RemoveCertFiles deletes the files written for Options.CertFiles.
